@@ -106,7 +106,8 @@ func genSpecials() []descCase {
 		{"interface str.ing\nmethod M(s: string) -> (s: string)\nerror E (s: string)\n", "pkg-predeclared"},
 		{"interface err.or\nmethod M() -> ()\nerror E (s: string)\n", "pkg-predeclared"},
 		{"interface in.it\nmethod M() -> ()\n", "pkg-init"},
-		// known findings (coordinator decision): keep generating them, rarely, tagged
+		// former findings, repaired by dfa0aa0 / a32447a / a04eec4: regression inputs, now expected to succeed
+		// like any other description of the domain (text equality, go build, probe)
 		{"# uses json.RawMessage\ninterface a.b\nmethod M() -> ()\n", "imp=comment-mentions-json"},
 		{"interface a.b\n# calls fmt.Sprintf\nmethod M() -> ()\nerror E\n", "imp=comment-mentions-fmt"},
 		{"interface fmt.Sprintf\nmethod M() -> ()\n", "imp=name-mentions-fmt"},
@@ -119,6 +120,15 @@ func genSpecials() []descCase {
 		{"interface g.o\nmethod M() -> ()\n", "pkg=keyword"},
 		{"interface Ty.Pe\nmethod M() -> ()\n", "pkg=keyword"},
 		{"interface ma.in\nmethod M() -> ()\n", "pkg=main"},
+		{"interface Ma.I-n\nmethod M(o: object) -> (s: string)\nerror E (a: int)\n", "pkg=main"},
+		{"interface i.f\ntype T (a: ?T, o: object)\nmethod M(t: T) -> (t: []T)\nerror E (t: T)\nerror F\n", "pkg=keyword"},
+		{"interface im.port\nmethod M() -> ()\nerror E\n", "pkg=keyword"},
+		{"interface pack.age\nmethod M() -> ()\n", "pkg=keyword"},
+		{"interface context.Context\nmethod M() -> ()\n", "imp=name-mentions-context"},
+		{"# @IMPORTS@\n# @IMPORTS@ json.RawMessage fmt.Sprintf\ninterface a.b\n# @IMPORTS@\ntype T (a: int)\n# @IMPORTS@\nmethod M(o: object) -> ()\n# @IMPORTS@\nerror E (a: int)\n", "imp=placeholder-everywhere"},
+		{"# see @IMPORTS@ here\ninterface i.f\nmethod M() -> ()\n", "imp=placeholder-and-keyword"},
+		{"interface a.b\ntype RawMessage (a: int)\ntype Sprintf (a: int)\nmethod Context(a: RawMessage, b: Sprintf) -> ()\n", "imp=member-names-mention"},
+		{"interface a.b\n# json.RawMessage\nmethod M() -> ()\n# fmt.Sprintf\nerror E\n", "imp=comment-mentions-fmt-typeless-error"},
 	}
 	out := []descCase{
 		{"interface a.b\nmethod M() -> ()\nerror E (a, b)\n", "x-enum-error"},
@@ -202,6 +212,8 @@ func genSystematicCases() []descCase {
 var genIfaceNames = []string{
 	"org.example.test", "com.Example-x.foo", "a.b", "A.B-c.d9", "io.systemd.Resolve", "org.varlink.certification",
 	"x.y.z", "xn--lgbbat1ad8j.example.algeria", "a.b-c-d", "Ab.Cd.Ef", "org.example.more9", "z.a0",
+	// package name a Go keyword or main, names mentioning what the import detection used to search for
+	"i.f", "ma.in", "Ty.pe", "fmt.Sprintf", "json.RawMessage",
 }
 var genMemberNames = []string{
 	"Foo", "Bar", "Baz", "T", "U", "V", "Ping", "GetInfo", "A1", "Zz9", "Item", "State", "Monitor", "Start", "End",
@@ -317,7 +329,8 @@ func (d *descBuilder) doc(b *strings.Builder, nlStr string) {
 	n := 1 + d.g.Intn(3)
 	for i := 0; i < n; i++ {
 		l := d.g.Pick(genDocLines)
-		if d.risky && d.g.Chance(1, 6) {
+		if d.g.Chance(1, 10) || (d.risky && d.g.Chance(1, 6)) {
+			// texts the import detection used to search for; plain documentation since dfa0aa0
 			l = d.g.Pick(genRiskyDocLines)
 		}
 		b.WriteString("#")
@@ -328,8 +341,8 @@ func (d *descBuilder) doc(b *strings.Builder, nlStr string) {
 	}
 }
 
-// randomDescription: a random interface inside the domain most of the time; `risky` ones use the names and
-// texts that are known to break the generator or lie outside the domain.
+// randomDescription: a random interface inside the domain most of the time; `risky` ones use names that lie
+// outside the domain (reserved member names, duplicate fields, direct recursion).
 func (g *Rng) randomDescription() descCase {
 	d := &descBuilder{g: g, risky: g.Chance(1, 12)}
 	nlStr := "\n"
